@@ -42,7 +42,10 @@ META = {
         "Pyoda.GenAgree.C05.gen_Precalc_getZoneIntervalNoTail_eq",
         "Pyoda.GenAgree.C05.gen_Precalc_getZoneIntervalNoTail_loop1_eq",
         "Pyoda.GenAgree.C05.gen_Precalc_getZoneIntervalTail_loop1_eq",
-        "Pyoda.GenAgree.C05.gen_Precalc_getZoneIntervalTail_eq",
+        "Pyoda.GenAgree.C05.gen_Precalc_getZoneIntervalTail_eq", "Pyoda.GenAgree.C05.gen_ZoneLocalMapping_count_eq",
+        "Pyoda.GenAgree.C05.gen_ZoneLocalMapping_first_eq", "Pyoda.GenAgree.C05.gen_ZoneLocalMapping_last_eq",
+        "Pyoda.GenAgree.C05.gen_ZoneLocalMapping_single_eq", "Pyoda.GenAgree.C05.gen_first_is_model",
+        "Pyoda.GenAgree.C05.gen_last_is_model", "Pyoda.GenAgree.C05.gen_single_is_model",
     ],
     "trusted_base": [
         "translator tie (tools/py2lean.py; generated file lean/PyodaGen/C05.lean shared by C04 and C05, agreement in PyodaProofs/GenAgreeC05.lean): DateTimeZone.map_local and its four helpers "
@@ -52,7 +55,7 @@ META = {
         "Trusted there: the translator's semantics (self-test of C03); the model's integer timeline as the representation of Instant / _LocalInstant / Duration / Offset objects (lean/PyodaGen/GlueC05.lean: comparisons, "
         "instant - Duration.epsilon and _LocalInstant._minus as range-checked integer subtraction, _minus_zero_offset as the identity, _days_since_epoch as floor division by a day — object-level arithmetic is tied by GenAgreeC03), "
         "ZoneInterval as the model's ZI with __local_start/__local_end = safe_plus of the bounds (what __init__ computes), ZoneLocalMapping._ctor keeping (early, late, count), the zone's own get_zone_interval and the tail zone's as abstract callees. "
-        "Outside the tie: ZoneLocalMapping.single/first/last and the resolvers (the model describes the instants of the returned ZonedDateTimes, the code builds them lazily), at_start_of_day, ZoneRecurrence / ZoneYearOffset",
+        "ZoneLocalMapping.count / single / first / last are tied too, with __build_zoned_date_time abstract: which interval is built and which of SkippedTimeError / AmbiguousTimeError / the unreachable RuntimeError is raised (single builds both candidates before raising AmbiguousTimeError), and with the model's reading of a built value (its instant, buildInstant) they are Mapping.first / last / single for count <= 2. Outside the tie: the stock resolvers (closures over ZonedDateTime objects), ZonedDateTime construction itself, at_start_of_day, ZoneRecurrence / ZoneYearOffset",
         "zone data (periods, tail rules) are read from the code's decoded objects and sent to the model per run; C06 ties them to the file bytes",
         "zones with a recurring tail: zoneOK_sound / zoneOK_gives_spec derive the whole-zone description (one strictly increasing transition sequence from the beginning to the end of time: stored periods, the clamped first tail interval at the seam, the tail intervals through year 9999, the final interval ending at the after-max sentinel; lookup constant on each interval, intervals abut) and the C05 hypotheses from ONE decidable check, zoneOK (stored periods well-formed and >= 36 h, every yearly occurrence of both rules for 1900..9999 inside its own local year and two days inside the end of time, the two rules alternate, consecutive tail transitions >= 36 h apart, the stored periods end at a valid instant after the first covered tail transition, the clamped seam interval >= 36 h), which the compiled driver evaluates on the current data of every zone with a tail each run (op zone.ok; trusted: Lean compiler for that evaluation); the Gregorian year search used by the rules is the one proved in C01 (getYear_spec, greg_wf)",
         "walks and maximality: walk_partition / zoneOK_walk / dataOK_walk (the walk from the minimum instant to past the maximum instant returns abutting intervals covering every valid instant, the last one ending at the after-max sentinel) and adjacent_differ / adjacent_differ_notail (adjacent intervals differ in name or offsets) rest on the same evaluated checks plus zoneMaximal / maximal (stored periods pairwise, the last stored period against the first tail interval, the two tail rules against each other), also evaluated on every zone each run; a zone failing them is reported as a failure",
